@@ -32,6 +32,7 @@ type tlim struct {
 	// has decided it and before it answers): whatever other traffic the harness wants to land in that window
 	onWarn  func()
 	inWarn  bool
+	lossy   bool // built with a logger whose sink may break: such a request is reported as lost, not as a crash
 	lim     *ratelimit.TokenLimiter
 	handled int
 	h       http.Handler
@@ -48,7 +49,8 @@ type tlResult struct {
 	retryIn  time.Duration
 	hasRetry bool
 	retryHdr string
-	ownMarks int // how often the caller's error handler answered (when one is configured)
+	ownMarks int  // how often the caller's error handler answered (when one is configured)
+	lost     bool // the caller's log sink broke in the course of this request: it unwound with that panic, unanswered
 }
 
 func (a tlResult) same(b tlResult) bool {
@@ -79,6 +81,9 @@ var rateOverride func() ([]rateSpec, error)
 var perSourceRates map[string][]rateSpec
 
 var slowRateLogger bool
+
+// brokenSink, when set, is the logger of the next limiter built: its sink breaks once (simkit.FaultyLogger)
+var brokenSink *simkit.FaultyLogger
 
 // overlapLogger: the limiter's logger is one during whose Warn calls other requests arrive (tlim.onWarn)
 var overlapLogger bool
@@ -134,6 +139,10 @@ func newTLim(rt *rapid.T, rates []rateSpec, capacity int) *tlim {
 	}
 	if overlapLogger {
 		opts = append(opts, ratelimit.Logger(windowLogger{l}))
+	}
+	if brokenSink != nil {
+		opts = append(opts, ratelimit.Logger(*brokenSink))
+		l.lossy = true
 	}
 	if ownErrHandler {
 		// the caller's error handler: same mapping as the default one, so every oracle keeps its meaning, plus
@@ -198,8 +207,23 @@ func (l *tlim) do(src string, amount int64) tlResult {
 	req := newRequest(nil, src)
 	req.Header.Set("Amount", strconv.FormatInt(amount, 10))
 	rec := simkit.NewRecorder()
+	lost := false
 	if guardRun != nil && (simrt.Active() == nil || simrt.Active().Current() == nil) {
-		guardRun.Guard("request through the rate limiter", func() { l.lim.ServeHTTP(rec, req) })
+		guardRun.Guard("request through the rate limiter", func() {
+			defer func() {
+				if p := recover(); p != nil {
+					if l.lossy && p == simkit.LogSinkBroken {
+						lost = true
+						return
+					}
+					panic(p)
+				}
+			}()
+			l.lim.ServeHTTP(rec, req)
+		})
+		if lost {
+			return tlResult{lost: true}
+		}
 	} else {
 		l.lim.ServeHTTP(rec, req) // inside a task: the scheduler records the panic
 	}
